@@ -93,6 +93,102 @@ theorem casLoop_failure {e : Ev} {c : Hp.St} {pc : Pc} {b : Bool} {cell : Nat} {
       cases h
       exact ⟨rfl, hg.2⟩
 
+/-! ### one `fetch_add` site: the single `fetch_add` or the compare-exchange loop -/
+
+/-- the call state after the step of a `fetch_add` site: the loop state of the site is cleared -/
+def faDone (onOk : Res) : Res := (onOk.1, { onOk.2.1 with icur := none, ifailed := false }, onOk.2.2)
+
+/-- **what a `fetch_add` site accepts** — either a stutter: a load of the cell or a FAILED compare-exchange on
+    it, which changes nothing but the loop state of the call (`icur`, `ifailed`); or THE step: the single
+    `fetch_add` or a SUCCESSFUL compare-exchange on the cell, with the ordering the site needs, which read the
+    cell's current pattern `x` and does what the site does (`onOk`), the site's side condition holding -/
+theorem fetchAdd_cases {e : Ev} {c : Hp.St} {pc : Pc} {loc : Loc} {ord : String} {a x : UInt64} {ok : Bool}
+    {msg : String} {onOk r : Res} (h : fetchAdd e c pc loc ord a x ok msg onOk = .ok r) :
+    ((∃ ic f, r = (c, { pc with icur := ic, ifailed := f }, none)) ∧ parseLoc e.loc = loc ∧
+        (e.k = "L" ∨ (e.k = "C" ∧ e.ok = false))) ∨
+    (r = faDone onOk ∧ ok = true ∧ parseLoc e.loc = loc ∧ ordGe e.ord ord = true ∧ e.res = x ∧
+        (e.k = "A" ∨ (e.k = "C" ∧ e.ok = true))) := by
+  have hload : ∀ {x' : UInt64}, faLoad e c pc loc x' msg = .ok r →
+      (∃ ic f, r = (c, { pc with icur := ic, ifailed := f }, none)) ∧ parseLoc e.loc = loc ∧
+        (e.k = "L" ∨ (e.k = "C" ∧ e.ok = false)) := by
+    intro x' h
+    unfold faLoad at h
+    rw [guard_ok] at h; obtain ⟨hg, h⟩ := h
+    simp only [Bool.and_eq_true, beq_iff_eq] at hg
+    cases h
+    exact ⟨⟨_, _, rfl⟩, hg.1.1.2, .inl hg.1.1.1⟩
+  unfold fetchAdd at h
+  simp only at h
+  split at h
+  · next hk =>
+    rw [guard_ok] at h; obtain ⟨hg, h⟩ := h
+    simp only [Bool.and_eq_true, beq_iff_eq] at hg
+    cases h
+    exact .inr ⟨rfl, hg.1.2, hg.1.1.1.1.1, hg.1.1.1.1.2, hg.1.1.2, .inl (by simpa using hk)⟩
+  · split at h
+    · exact .inl (hload h)
+    · split at h
+      · exact .inl (hload h)
+      · rw [guard_ok] at h; obtain ⟨hg, h⟩ := h
+        simp only [Bool.and_eq_true, beq_iff_eq] at hg
+        split at h
+        · next hok =>
+          rw [guard_ok] at h; obtain ⟨hc, h⟩ := h
+          simp only [Bool.and_eq_true, beq_iff_eq] at hc
+          cases h
+          exact .inr ⟨rfl, hc.2, hg.1.1.1.2, hg.1.1.2, by rw [hc.1.2, hc.1.1], .inr ⟨hg.1.1.1.1, hok⟩⟩
+        · next hok =>
+          rw [guard_ok] at h; obtain ⟨_, h⟩ := h
+          cases h
+          exact .inl ⟨⟨_, _, rfl⟩, hg.1.1.1.2, .inr ⟨hg.1.1.1.1, by simpa using hok⟩⟩
+
+/-- **the single `fetch_add` is accepted** (as before): on the site's cell, with an ordering at least the
+    site's, the site's operand, returning the cell's pattern, no loop in progress - it is the site's step -/
+theorem fetchAdd_single {e : Ev} {c : Hp.St} {pc : Pc} {loc : Loc} {ord : String} {a x : UInt64} {ok : Bool}
+    {msg : String} {onOk : Res} (hk : e.k = "A") (hl : parseLoc e.loc = loc) (ho : ordGe e.ord ord = true)
+    (ha : e.a = a) (hr : e.res = x) (hok : ok = true) (hi : pc.icur = none) :
+    fetchAdd e c pc loc ord a x ok msg onOk = .ok (faDone onOk) := by
+  simp [fetchAdd, hk, hl, ho, ha, hr, hok, hi, Conc.guard, faDone]
+
+/-- **the loop's load is accepted**: with no loop in progress, a load (any ordering) of the site's cell that
+    returns the cell's pattern `x` changes nothing; the call remembers `x` -/
+theorem fetchAdd_load {e : Ev} {c : Hp.St} {pc : Pc} {loc : Loc} {ord : String} {a x : UInt64} {ok : Bool}
+    {msg : String} {onOk : Res} (hk : e.k = "L") (hl : parseLoc e.loc = loc) (hr : e.res = x) (hi : pc.icur = none) :
+    fetchAdd e c pc loc ord a x ok msg onOk = .ok (c, { pc with icur := some x, ifailed := false }, none) := by
+  have hrel : ordGe e.ord "Relaxed" = true := by simp [ordGe]
+  simp [fetchAdd, faLoad, hk, hl, hr, hi, hrel, Conc.guard]
+
+/-- **the loop's successful compare-exchange is accepted and is the site's step**: expecting the remembered
+    pattern `cur`, installing `cur + a` (wrapping), with an ordering at least the site's, when the cell still
+    holds `cur` - exactly what the single `fetch_add` does -/
+theorem fetchAdd_cas_ok {e : Ev} {c : Hp.St} {pc : Pc} {loc : Loc} {ord : String} {a x cur : UInt64} {ok : Bool}
+    {msg : String} {onOk : Res} (hi : pc.icur = some cur) (hk : e.k = "C") (hl : parseLoc e.loc = loc)
+    (ho : ordGe e.ord ord = true) (ha : e.a = cur) (hb : e.b = cur + a) (hs : e.ok = true)
+    (hx : x = cur) (hr : e.res = cur) (hok : ok = true) :
+    fetchAdd e c pc loc ord a x ok msg onOk = .ok (faDone onOk) := by
+  simp [fetchAdd, hi, hk, hl, ho, ha, hb, hs, hx, hr, hok, Conc.guard, faDone]
+
+/-- **a failed compare-exchange of the loop** (the cell changed, or spuriously) that reports the cell's pattern
+    `x` changes nothing; the call goes on with `x` as expected value and may also load again -/
+theorem fetchAdd_cas_failed {e : Ev} {c : Hp.St} {pc : Pc} {loc : Loc} {ord : String} {a x cur : UInt64} {ok : Bool}
+    {msg : String} {onOk : Res} (hi : pc.icur = some cur) (hk : e.k = "C") (hl : parseLoc e.loc = loc)
+    (ho : ordGe e.ord ord = true) (ha : e.a = cur) (hb : e.b = cur + a) (hs : e.ok = false) (hr : e.res = x) :
+    fetchAdd e c pc loc ord a x ok msg onOk = .ok (c, { pc with icur := some x, ifailed := true }, none) := by
+  simp [fetchAdd, hi, hk, hl, ho, ha, hb, hs, hr, Conc.guard]
+
+/-- **both loops are accepted at a `fetch_add` site** — after a failed compare-exchange (`icur` is the pattern
+    it reported and `ifailed` is set) the site accepts a load exactly as a fresh load (the reloading loop)
+    and every other event exactly as the compare-exchange expecting the reported pattern does -/
+theorem fetchAdd_after_failure (e : Ev) (c : Hp.St) (pc : Pc) (loc : Loc) (ord : String) (a x : UInt64) (ok : Bool)
+    (msg : String) (onOk : Res) (cur : UInt64) (hc : pc.icur = some cur) (hf : pc.ifailed = true) :
+    fetchAdd e c pc loc ord a x ok msg onOk =
+      if e.k = "L" then fetchAdd e c { pc with icur := none } loc ord a x ok msg onOk
+      else fetchAdd e c { pc with ifailed := false } loc ord a x ok msg onOk := by
+  unfold fetchAdd
+  by_cases hk : e.k = "L"
+  · simp [hc, hf, hk, faLoad]
+  · simp [hc, hf, hk]
+
 /-! ### the updates of one observation in any order -/
 
 /-- what `splitFirst` returns is a split of the list at an entry satisfying `f` before which no
@@ -310,14 +406,18 @@ theorem obsRun_no_entry {k : Nat} {c : Hp.St} {cuts : Cuts} {e : Ev} {pc : Pc} {
   rw [evStep_obsRun ht, pick_of_no_hit h]; rfl
 
 /-- a bucket update in the middle of a sum loop leaves the loop as it is: the value it has loaded
-    (`cur`) and whether its last compare-exchange failed (`failed`) persist -/
+    (`cur`) and whether its last compare-exchange failed (`failed`) persist; the entry is done (the single
+    `fetch_add`, or the successful compare-exchange of the bucket's own loop), or - a load / failed exchange
+    of the bucket's own loop - nothing at all has happened -/
 theorem obsEntry_bucket_keeps_loop {k : Nat} {c : Hp.St} {e : Ev} {pc : Pc} {o : Obs} {b : Bool} {cell : Nat}
     {a : Int} {rest : List (Nat × Int)} {r : Res} (hc : cell < k)
     (h : obsEntry k c e pc o b cell a rest = .ok r) :
-    r.2.1.cur = pc.cur ∧ r.2.1.failed = pc.failed ∧ r.2.1.task = some (.obsRun o b rest) := by
+    r.2.1.cur = pc.cur ∧ r.2.1.failed = pc.failed ∧
+      (r.2.1.task = some (.obsRun o b rest) ∨ (r.2.1.task = pc.task ∧ r.1 = c ∧ r.2.2 = none)) := by
   simp only [obsEntry, hc, if_true] at h
-  rw [guard_ok] at h; obtain ⟨_, h⟩ := h; cases h
-  exact ⟨rfl, rfl, rfl⟩
+  rcases fetchAdd_cases h with ⟨⟨ic, f, hr⟩, _⟩ | ⟨hr, _⟩
+  · cases hr; exact ⟨rfl, rfl, .inr ⟨rfl, rfl, rfl⟩⟩
+  · cases hr; exact ⟨rfl, rfl, .inl rfl⟩
 
 /-- the check of one event against the current task is a stutter or exactly one step -/
 theorem evStep1_refines {k : Nat} {c : Hp.St} {cuts : Cuts} {e : Ev} {pc : Pc} {c' : Hp.St} {pc' : Pc}
@@ -334,11 +434,14 @@ theorem evStep1_refines {k : Nat} {c : Hp.St} {cuts : Cuts} {e : Ev} {pc : Pc} {
     next ht => left; rfl
   · -- obsStart
     next o ht =>
-    rw [plainR_ok, guard_ok] at h
-    obtain ⟨⟨_, h⟩, _⟩ := h; cases h
-    right
-    have := Step.claim (k := k) (withTasks c (pre ++ pc.task.toList ++ post)) pre post o (by simp [withTasks, ht])
-    simpa [withTasks, ht] using this
+    rw [plainR_ok] at h
+    obtain ⟨h, _⟩ := h
+    rcases fetchAdd_cases h with ⟨⟨ic, f, hr⟩, _⟩ | ⟨hr, _⟩
+    · cases hr; left; rfl
+    · cases hr
+      right
+      have := Step.claim (k := k) (withTasks c (pre ++ pc.task.toList ++ post)) pre post o (by simp [withTasks, ht])
+      simpa [withTasks, ht, faDone] using this
   · -- obsRun, an update left: the entry the event's location selects
     next o b p l ht =>
     have hsp := pick_spec k b (parseLoc e.loc) p l
@@ -348,9 +451,11 @@ theorem evStep1_refines {k : Nat} {c : Hp.St} {cuts : Cuts} {e : Ev} {pc : Pc} {
     have hstep := Step.apply (k := k) (withTasks c (pre ++ pc.task.toList ++ post)) pre post o b cell a l1 l2 (by simp [withTasks, ht, hsp])
     simp only [obsEntry] at h
     split at h
-    · rw [plainR_ok, guard_ok] at h
-      obtain ⟨⟨_, h⟩, _⟩ := h; cases h
-      right; simpa [withTasks, ht] using hstep
+    · rw [plainR_ok] at h
+      obtain ⟨h, _⟩ := h
+      rcases fetchAdd_cases h with ⟨⟨ic, f, hr⟩, _⟩ | ⟨hr, _⟩
+      · cases hr; left; rfl
+      · cases hr; right; simpa [withTasks, ht, faDone] using hstep
     · rw [plainR_ok] at h
       obtain ⟨h, _⟩ := h
       rcases casLoop_cases h with ⟨h1, h2, _⟩ | h1
@@ -358,11 +463,14 @@ theorem evStep1_refines {k : Nat} {c : Hp.St} {cuts : Cuts} {e : Ev} {pc : Pc} {
       · cases h1; right; simpa [withTasks, ht] using hstep
   · -- obsRun, publish
     next o b ht =>
-    rw [plainR_ok, guard_ok] at h
-    obtain ⟨⟨_, h⟩, _⟩ := h; cases h
-    right
-    have := Step.publish (k := k) (withTasks c (pre ++ pc.task.toList ++ post)) pre post o b (by simp [withTasks, ht])
-    simpa [withTasks, ht] using this
+    rw [plainR_ok] at h
+    obtain ⟨h, _⟩ := h
+    rcases fetchAdd_cases h with ⟨⟨ic, f, hr⟩, _⟩ | ⟨hr, _⟩
+    · cases hr; left; rfl
+    · cases hr
+      right
+      have := Step.publish (k := k) (withTasks c (pre ++ pc.task.toList ++ post)) pre post o b (by simp [withTasks, ht])
+      simpa [withTasks, ht, faDone] using this
   · -- colWant: acquire
     next ht =>
     rw [plainR_ok, guard_ok] at h
@@ -385,11 +493,14 @@ theorem evStep1_refines {k : Nat} {c : Hp.St} {cuts : Cuts} {e : Ev} {pc : Pc} {
           right
           have := Step.release (k := k) (withTasks c (pre ++ pc.task.toList ++ post)) pre post (by simp [withTasks, ht])
           simpa [withTasks, ht] using this
-    · rw [plainR_ok, guard_ok] at h
-      obtain ⟨⟨_, h⟩, _⟩ := h; cases h
-      right
-      have := Step.flip (k := k) (withTasks c (pre ++ pc.task.toList ++ post)) pre post (by simp [withTasks, ht])
-      simpa [withTasks, ht] using this
+    · rw [plainR_ok] at h
+      obtain ⟨h, _⟩ := h
+      rcases fetchAdd_cases h with ⟨⟨ic, f, hr⟩, _⟩ | ⟨hr, _⟩
+      · cases hr; left; rfl
+      · cases hr
+        right
+        have := Step.flip (k := k) (withTasks c (pre ++ pc.task.toList ++ post)) pre post (by simp [withTasks, ht])
+        simpa [withTasks, ht, faDone] using this
   · -- colSpin
     next cold ov S ht =>
     rw [plainR_ok, guard_ok] at h
@@ -417,9 +528,11 @@ theorem evStep1_refines {k : Nat} {c : Hp.St} {cuts : Cuts} {e : Ev} {pc : Pc} {
     next cold ov cell todo taken S ht =>
     have hstep := Step.addHot (k := k) (withTasks c (pre ++ pc.task.toList ++ post)) pre post cold ov cell todo taken S (by simp [withTasks, ht])
     split at h
-    · rw [plainR_ok, guard_ok] at h
-      obtain ⟨⟨_, h⟩, _⟩ := h; cases h
-      right; simpa [withTasks, ht] using hstep
+    · rw [plainR_ok] at h
+      obtain ⟨h, _⟩ := h
+      rcases fetchAdd_cases h with ⟨⟨ic, f, hr⟩, _⟩ | ⟨hr, _⟩
+      · cases hr; left; rfl
+      · cases hr; right; simpa [withTasks, ht, faDone] using hstep
     · rw [plainR_ok] at h
       obtain ⟨h, _⟩ := h
       rcases casLoop_cases h with ⟨h1, h2, _⟩ | h1
@@ -427,11 +540,14 @@ theorem evStep1_refines {k : Nat} {c : Hp.St} {cuts : Cuts} {e : Ev} {pc : Pc} {
       · cases h1; right; simpa [withTasks, ht] using hstep
   · -- addCount
     next cold ov todo taken S ht =>
-    rw [plainR_ok, guard_ok] at h
-    obtain ⟨⟨_, h⟩, _⟩ := h; cases h
-    right
-    have := Step.addCount (k := k) (withTasks c (pre ++ pc.task.toList ++ post)) pre post cold ov todo taken S (by simp [withTasks, ht])
-    simpa [withTasks, ht] using this
+    rw [plainR_ok] at h
+    obtain ⟨h, _⟩ := h
+    rcases fetchAdd_cases h with ⟨⟨ic, f, hr⟩, _⟩ | ⟨hr, _⟩
+    · cases hr; left; rfl
+    · cases hr
+      right
+      have := Step.addCount (k := k) (withTasks c (pre ++ pc.task.toList ++ post)) pre post cold ov todo taken S (by simp [withTasks, ht])
+      simpa [withTasks, ht, faDone] using this
   · -- unlock
     next cold ov todo taken S ht =>
     split at h
